@@ -7,11 +7,16 @@ report a violation?  Mutants that compile, pass the tests and are NOT reported a
 triage: each is either an equivalent / property-irrelevant mutant or a gap in the rules.
 
 usage: mutsweep.py <workers> <outfile> [--limit N] [--files a.rs,b.rs]
+       mutsweep.py <workers> <outfile> --rerun <earlier-results.jsonl> [--tier thorough]
+           re-runs the mutants recorded as SURVIVED / timeout in an earlier result file against the current rules
+           (with --tier thorough the cfg(windows) sibling rules, the witnesses and the whole-program census run too;
+           for cfg(windows) code no test of the repository runs on this machine, so 'SURVIVED' there means 'not reported')
 """
 import json, os, re, shutil, subprocess, sys, hashlib
 from concurrent.futures import ThreadPoolExecutor
 
 REPO = '/repo'
+TIER = None
 WORK = '/tmp/mut'
 FILES = ['src/communicate.rs', 'src/popen.rs', 'src/posix.rs', 'src/builder.rs']
 
@@ -94,7 +99,7 @@ def run_one(w, m):
     env = dict(os.environ, VERIF_REPO=d + '/repo', VERIF_CACHE=d + '/cache', VERIF_EVIDENCE=d + '/evidence', CARGO_NET_OFFLINE='true')
     res = {'file': f, 'line': i + 1, 'old': old.strip(), 'new': new.strip(), 'op': desc}
     try:
-        r = subprocess.run(['/verif/check', '--all'], cwd='/verif', env=env, text=True, stdout=subprocess.PIPE, stderr=subprocess.STDOUT, timeout=300)
+        r = subprocess.run(['/verif/check', '--all'] + (['--tier', TIER] if TIER else []), cwd='/verif', env=env, text=True, stdout=subprocess.PIPE, stderr=subprocess.STDOUT, timeout=300)
         out = r.stdout
         if 'INFRA-ERROR' in out or r.returncode == 2:
             res['status'] = 'no-compile'
@@ -125,6 +130,13 @@ def main():
     limit = int(sys.argv[sys.argv.index('--limit') + 1]) if '--limit' in sys.argv else None
     files = sys.argv[sys.argv.index('--files') + 1].split(',') if '--files' in sys.argv else FILES
     muts = gen_mutants(files)
+    if '--tier' in sys.argv:
+        global TIER
+        TIER = sys.argv[sys.argv.index('--tier') + 1]
+    if '--rerun' in sys.argv:
+        prev = [json.loads(l) for l in open(sys.argv[sys.argv.index('--rerun') + 1])]
+        want = {(j['file'], j['line'], j['new']) for j in prev if j['status'] in ('SURVIVED', 'timeout')}
+        muts = [m for m in muts if (m[0], m[1] + 1, m[3].strip()) in want]
     if limit:
         # deterministic spread
         muts = sorted(muts, key=lambda m: hashlib.md5(repr(m).encode()).hexdigest())[:limit]
